@@ -5,6 +5,7 @@ import (
 	"go/ast"
 	"go/token"
 	"go/types"
+	"golang.org/x/tools/go/cfg"
 	"sort"
 	"strings"
 
@@ -16,7 +17,7 @@ func init() {
 		ID:    "C11",
 		Level: "other",
 		Explanation: "The coding discipline that component memory cleanliness and GC safety rest on, decided on every path: " +
-			"(R1) the table length is stored only by the grow, swap-remove and reset roles, and in the two that decrease it every column is zeroed for every vacated row on all paths before the store (swap-remove: all three branches; reset: both zeroing strategies); " +
+			"(R1) the table length is stored only by the grow, swap-remove and reset roles, and in the two that decrease it every column is zeroed for every vacated row on all paths before the store (swap-remove: all three branches; reset: both zeroing strategies; in the reset role no store of the length precedes the column reset on any path, since the columns are reset over the length they are handed); " +
 			"(R2) every raw byte copy whose operands derive from a component column is dominated by the true branch of that column's trivial (pointer-free) flag, in the function or at all its call sites; " +
 			"(R3) the function computing the trivial flag returns false for every kind whose representation holds a pointer (Pointer, Slice, Map, Chan, Interface, String, Func, UnsafePointer) and recurses into all struct fields and array elements; " +
 			"(R4) a capacity change allocates fresh typed arrays and copies the live rows on both the raw and the reflection path. Not decided: actual collectability, finalizers, behaviour under a concurrent collector.",
@@ -213,7 +214,42 @@ func c11r1(c *core.Ctx) {
 			}
 			return true
 		})
-		// the length store comes after the loop
+		// the length store comes after the loop: on no path is the table's length stored before a column is reset (the
+		// columns would be reset over the new length, i.e. not at all)
+		if ok {
+			early := ""
+			g := m.CFG(f)
+			core.Forward(g, core.Flow[bool]{
+				Entry: false,
+				Join:  func(a, b bool) bool { return a || b },
+				Equal: func(a, b bool) bool { return a == b },
+				Node: func(st bool, _ *cfg.Block, n ast.Node) bool {
+					core.WalkEval(n, func(x ast.Node, _ bool) {
+						switch y := x.(type) {
+						case *ast.AssignStmt:
+							for _, l := range y.Lhs {
+								if fieldKeyOf(m, l) == "table.len" {
+									st = true
+								}
+							}
+						case *ast.IncDecStmt:
+							if fieldKeyOf(m, y.X) == "table.len" {
+								st = true
+							}
+						case *ast.CallExpr:
+							if _, isC := callTo(m, y, colReset); isC && st && early == "" {
+								early = c.At(y.Pos())
+							}
+						}
+					})
+					return st
+				},
+			})
+			if early != "" {
+				ok = false
+				c.Violation("C11/R1", f.Name+": length cleared first", early, f.Name+": the table's length is stored before the columns are reset at "+early+"; the column reset would run over the new length and leave the old rows un-zeroed")
+			}
+		}
 		if ok {
 			c.OK("C11/R1", f.Name, c.At(f.Pos()), "every column is reset over the table's full length before the length is cleared")
 		} else {
